@@ -66,6 +66,12 @@ def other_handler(signum, frame):
     pass
 
 
+class Boom(BaseException):
+    """Not an Exception (like KeyboardInterrupt / SystemExit raised by the function itself)."""
+
+
+EXC = {"ValueError": ValueError, "KeyError": KeyError, "KeyboardInterrupt": KeyboardInterrupt, "Boom": Boom}
+
 HANDLERS = {"dfl": signal.SIG_DFL, "ign": signal.SIG_IGN, "py": py_handler,
             "default_int": signal.default_int_handler}
 
@@ -166,16 +172,16 @@ def x_history(ctx, case):
                 if k == "ret":
                     return f.get("v")
                 if k == "raise":
-                    raise {"ValueError": ValueError, "KeyError": KeyError}[f["exc"]]("boom")
+                    raise EXC[f["exc"]]("boom")
                 if k == "fired":
                     return defer.succeed(f.get("v"))
                 if k == "failed":
-                    return defer.fail({"ValueError": ValueError, "KeyError": KeyError}[f["exc"]]("boom"))
+                    return defer.fail(EXC[f["exc"]]("boom"))
                 d = defer.Deferred()
                 if k == "fire_at":
                     reactor.callLater(f["t"], d.callback, f.get("v"))
                 elif k == "fail_at":
-                    reactor.callLater(f["t"], d.errback, {"ValueError": ValueError, "KeyError": KeyError}[f["exc"]]("boom"))
+                    reactor.callLater(f["t"], d.errback, EXC[f["exc"]]("boom"))
                 elif k == "chain":
                     inner = defer.Deferred()
                     reactor.callLater(f["t"], d.callback, None)
@@ -335,7 +341,8 @@ NO_SHARDS = False
 
 
 def grid_runs():
-    kinds = [{"kind": "ret", "v": 1}, {"kind": "raise", "exc": "ValueError"}, {"kind": "fired", "v": None},
+    kinds = [{"kind": "ret", "v": 1}, {"kind": "raise", "exc": "ValueError"}, {"kind": "raise", "exc": "Boom"},
+             {"kind": "raise", "exc": "KeyboardInterrupt"}, {"kind": "failed", "exc": "Boom"}, {"kind": "fired", "v": None},
              {"kind": "failed", "exc": "KeyError"}, {"kind": "never"}]
     for t in (0.5, 1.5, 2.5):
         kinds.append({"kind": "fire_at", "t": t, "v": "x"})
@@ -367,7 +374,7 @@ def run(ctx):
             run1 = dict(base, **v)
             ctx.execute("history", {"runs": [run1], "handlers": ["default_int", "py", "ign", "dfl"][n % 4]},
                         sample=(n % 211 == 0))
-    ctx.note_space("function kind (14) x timeout (2) x stop instant (8, incl. during reactor start-up) x 6 variants (junk, selectables, handler "
+    ctx.note_space("function kind (17) x timeout (2) x stop instant (8, incl. during reactor start-up) x 6 variants (junk, selectables, handler "
                    "re-installation, re-entry, pre-patched reactor.stop), fresh Spinner", n, not ctx.quick)
     # reuse histories: run A, (clear junk or not), run B
     firsts = [r for r in grid_runs()][::5]
